@@ -1,9 +1,37 @@
 //@@ unit props=C01,C07,C14,C16,C20,C06
-// Unit ctors: the constructors and the thin accessors no other unit has under contract.
+// Unit ctors: the constructors of the xlsx / xls / ods readers, the prologue reader of an xlsx sheet part, and the thin accessors of the
+// eager readers that no other unit has under contract.
 //
 // Real text under contract (verbatim, extracted by byte span):
-//   src/xls.rs   Reader<RS> for Xls<RS>:  metadata, vba_project, worksheet_formula          (part 3)
-//   src/ods.rs   Reader<RS> for Ods<RS>:  metadata, vba_project, worksheet_formula          (part 3)
+//   src/xlsx/cells_reader.rs  XlsxCellReader::new            C01 the cells start right after the FIRST `sheetData` start tag, whatever precedes it
+//                                                            (`sheetdata_at`: kinds and local names only -- no attribute, so `<dimension ref>` is a hint);
+//                                                            cursor (0,0); context = the arguments (C16: is_1904); schema walk `pro_scan` (ECMA-376
+//                                                            CT_Worksheet): declared dimension = the hint, missing dimension is fine; C07 a part without
+//                                                            sheetData is NotAWorksheet(first element name) / XmlEof.  Establishes exactly the start state
+//                                                            (`g_events, g_pos, g_cur, g_cx`) `next_cell` is specified from in unit xlsxxml.
+//   src/xlsx/mod.rs           Reader::new for Xlsx           C20/C16/C07 `xlsx_new_run`: password check on the raw reader FIRST (its error is the result),
+//                                                            ZipArchive::new, then from a FRESH reader (nothing read, caches None, options default)
+//                                                            read_shared_strings -> read_styles -> read_relationships -> read_workbook(those relationships);
+//                                                            first error returned as it is, else the state the last reader left.  + C20 facet.
+//   src/xls.rs                Xls::new_with_options, Reader::new   C20/C16/C07 `xls_new_run`: seek End / Start, Cfb::new(len), eager VBA read iff `_VBA_PROJECT_CUR`,
+//                                                            parse_workbook from a fresh reader WITH THE GIVEN OPTIONS (new: the defaults); errors of the workbook
+//                                                            stream (FILEPASS => Password) come before a VBA error; lemmas derive C20 in the property's words.
+//   src/ods.rs                Reader::new for Ods            C20/C16/C07 `ods_new_run`: zip directory, `mimetype` entry (absent / other / I/O), manifest password
+//                                                            check BEFORE content.xml, reader == exactly what parse_content returned, options default.
+//   src/xls.rs, src/ods.rs    Reader::{metadata, vba_project, worksheet_formula, worksheets}   C16 metadata() is the stored metadata; C14 the stored formula
+//                                                            range of EXACTLY the named sheet; C07 unknown name => WorksheetNotFound, reads are pure (`*final(self) ==
+//                                                            *old(self)`), worksheets() = one entry (name, stored range) per stored sheet.
+// TRUSTED (all marked below): A-io (Read / Seek ghost model, text of unit cfb), A-xml (quick-xml ghost model, text of unit xlsxxml), A-zip
+// (ZipArchive / ZipFile opaque), A-std (Cow deref, to_string, to_owned, to_vec, String-keyed BTreeMap lookup, derives Default / Clone expansions,
+// `?` = From::from), byte-literal contents (axiom_bytelits, exec const MIMETYPE), and the CALLEE CONTRACTS: every part reader is a stand-in
+// (signature copied) whose contract is an uninterpreted relation `x_call(before, after, result)` standing for the clauses proved in the unit
+// named at its declaration (cfb, vbaproj, xlswb, xlsxxml, xlsxparts, xlsxwb, ods, odsxml); the clause text is copied where this unit uses it
+// (`xlsx_pw_rel`, `xls_wb_rel`, `ods_pw_rel`, `has_directory`, `get_dimension`).
+// Declared rewrites (logged): `map_err(Variant)` eta-expanded; byte-string literal patterns -> binding + guard / verified helper
+// `verif_attr_value_if_key` (Verus crashes on them); the `for a in e.attributes()` loop containing `continue 'xml` desugared (R6); `mutparams`.
+// R-mono (rule of units apiglue / lazyrange) for `worksheets()` of Xls / Ods.  Manual copy: `const MIMETYPE` (elided lifetime written out).
+// Not reached: `Xlsx::worksheets` (closure capturing `&mut self`: rejected by Verus), `pictures` (feature gated).
+// Finding (fixed, findings/ctors.json): the eager VBA read of Xls::new_with_options returned its error before FILEPASS was looked at.
 #![allow(unused_imports, dead_code, unused_variables, unused_mut, unused_assignments, unexpected_cfgs)]
 use vstd::prelude::*;
 use std::borrow::Cow;
@@ -662,12 +690,10 @@ __n if __n == \g<1> =>
 pub broadcast proof fn axiom_question_mark_from<S: From<T>, T>(e: T, r: S)
     ensures #[trigger] vstd::std_specs::control_flow::spec_from::<S, T>(e, r) ==> call_ensures(<S as From<T>>::from, (e,), r) {}
 
-// TRUSTED: A-std -- `Result::unwrap_or_default` / `Option::unwrap_or_default` ("Returns the contained Ok / Some value or a default"): not called
+// TRUSTED: A-std -- `Result::unwrap_or_default` ("Returns the contained Ok value or a default"; vstd has the Option twin): not called
 // by the verified text; present so that an edit replacing a `?` by them is verified against the contracts, not rejected
 pub assume_specification<T: Default, E>[ Result::<T, E>::unwrap_or_default ](r: Result<T, E>) -> (o: T)
     ensures r matches Ok(v) ==> o == v;
-pub assume_specification<T: Default>[ Option::<T>::unwrap_or_default ](r: Option<T>) -> (o: T)
-    ensures r matches Some(v) ==> o == v;
 
 // ---- A-zip: the zip container.  TRUSTED: `ZipArchive` is a stand-in for zip::read::ZipArchive (opaque).
 #[verifier::external_body]
